@@ -1036,6 +1036,14 @@ def history_search(ctx):
         M1, M2 = spec_matrix(f1, n, {}), spec_matrix(f2, n, {})
         e1, _ = build_expr(f1, "py", {}, {})
         e2, _ = build_expr(f2, "py", {}, {})
+        import sympy
+
+        e1, e2 = sympy.sympify(e1), sympy.sympify(e2)
+        # the form setter recomputes nqubits from the symbols of the new form: keep cases
+        # where both forms (after sympy's own simplification) still mention qubit n-1
+        if any(max((sy.target_qubit for sy in e.free_symbols), default=-1) != n - 1 for e in (e1, e2)):
+            ctx.stat("history_skipped_register_changes")
+            continue
         h = SymbolicHamiltonian(e1, nqubits=n)
         touched = rng.sample(["matrix", "terms", "action"], rng.randint(1, 3))
         psi = int_state(rng, n)
